@@ -30,7 +30,7 @@ TRIPLES = []
 
 
 def plan(tier):
-  return {'n_cases': 320 if tier == 'quick' else 6400, 'shards': 16}
+  return {'n_cases': 320 if tier == 'quick' else 12800, 'shards': 16}
 
 
 def recipe_pool(rng, src):
